@@ -5,9 +5,11 @@ set -e
 cd "$(dirname "$0")"
 export GOFLAGS=-mod=mod GOPROXY=off GOSUMDB=off GOTOOLCHAIN=local
 mkdir -p .work evidence replays
-(cd factx && go build -o ../.work/factx-bin . && ../.work/factx-bin /repo ../lean/Dirk/Gen/Facts.lean)
+REPO="${DIRK_REPO:-/repo}"
+HERE="$(pwd)"
+(cd factx && go build -o ../.work/factx-bin . && ../.work/factx-bin "$REPO" ../lean/Dirk/Gen/Facts.lean)
 (cd lean && lake build)
-cp /repo/go.sum harness/go.sum
-(cd harness && go build -tags verif -o ../.work/dh-warm ./cmd/dh && rm -f ../.work/dh-warm)
-(cd /repo && go build -o /verif/.work/dirk-warm . && rm -f /verif/.work/dirk-warm)
+cp "$REPO/go.sum" harness/go.sum
+[ "$REPO" != /repo ] || (cd harness && go build -tags verif -o ../.work/dh-warm ./cmd/dh && rm -f ../.work/dh-warm)
+(cd "$REPO" && go build -o "$HERE/.work/dirk-warm" . && rm -f "$HERE/.work/dirk-warm")
 echo setup-ok
